@@ -63,6 +63,6 @@ META = dict(
          "theorems at ℝ. The model is of the code after fixes/storage_rain_evap_accounting.diff (defect D10: rainfall/evaporation "
          "volumes accumulated on rejected trial sub-steps only, and in mm·m² instead of m³).",
     technique="Lean 4 proof (loop invariants through fuelled recursion, induction on fuel and on the series) + bit-exact "
-              "differential correspondence model vs real code + budget oracle",
+              "differential correspondence model vs real code + budget oracle + model regenerated from the Go source on every run by a translator (gen_eq_* theorems tie it to the hand-written model) + inequality clauses re-proved for every monotone rounding (RNum)",
 )
 READY = True
